@@ -167,7 +167,7 @@ def stats_rule(rep, prog):
                 cnt = ma.fields[0].fields[1] if isinstance(ma.fields[0], TupleVal) else None
                 okk = isinstance(cnt, IntVal) and ("map_len",) in cnt.tags
                 guards = [f[1] for f in o.pc.log if f[0] == "guard"]
-                lt = [g for g in guards if g.get("op") in ("Lt",)]
+                lt = [g for g in guards if g.get("op") in ("Lt", "Gt")]      # `most < count` or, equivalently, `count > most` / a negated `count <= most`
                 rep.instance(rid, "most|written", sample={"value": repr(cnt), "guards": [g.get("op") for g in guards]})
                 if not okk:
                     rep.violation("R2", "stats:most:value", "most_airplanes is set to %r, not the tracked count" % (cnt,))
